@@ -21,10 +21,10 @@ import (
 
 // Violation is one failed rule on one transition or state.
 type Violation struct {
-	Prop   string `json:"prop"`
-	Rule   string `json:"rule"`
-	Detail string `json:"detail"`
-	FP     string `json:"fp"` // fingerprint: the shape of the failing input (known-findings key)
+	Prop   string   `json:"prop"`
+	Rule   string   `json:"rule"`
+	Detail string   `json:"detail"`
+	FP     string   `json:"fp"`            // fingerprint: the shape of the failing input (known-findings key)
 	Ctx    []string `json:"ctx,omitempty"` // context tags: rare history events that happened on the failing path
 }
 
@@ -57,12 +57,12 @@ func Register(d *ScenarioDef) {
 }
 
 type item struct {
-	ID    int        `json:"id"`
-	Scn   string     `json:"scn"`
-	Path  []world.Op `json:"path"`
-	Hash  string     `json:"hash,omitempty"` // expected hash of the state reached by Path
-	Extra bool       `json:"extra,omitempty"`
-	NoExpand bool    `json:"noexp,omitempty"`
+	ID       int        `json:"id"`
+	Scn      string     `json:"scn"`
+	Path     []world.Op `json:"path"`
+	Hash     string     `json:"hash,omitempty"` // expected hash of the state reached by Path
+	Extra    bool       `json:"extra,omitempty"`
+	NoExpand bool       `json:"noexp,omitempty"`
 }
 
 type succ struct {
@@ -75,16 +75,16 @@ type succ struct {
 }
 
 type result struct {
-	ID       int            `json:"id"`
-	Hash     string         `json:"hash"`
-	Diverged string         `json:"diverged,omitempty"`
-	Harness  string         `json:"harness,omitempty"`
-	Succ     []succ         `json:"succ,omitempty"`
-	Counts   map[string]int `json:"counts,omitempty"`
-	Steps    int            `json:"steps"`
-	ExtraEvals int          `json:"xe,omitempty"`
-	ExtraDistinct []string  `json:"xd,omitempty"`
-	ExtraViol []Violation   `json:"xv,omitempty"`
+	ID            int            `json:"id"`
+	Hash          string         `json:"hash"`
+	Diverged      string         `json:"diverged,omitempty"`
+	Harness       string         `json:"harness,omitempty"`
+	Succ          []succ         `json:"succ,omitempty"`
+	Counts        map[string]int `json:"counts,omitempty"`
+	Steps         int            `json:"steps"`
+	ExtraEvals    int            `json:"xe,omitempty"`
+	ExtraDistinct []string       `json:"xd,omitempty"`
+	ExtraViol     []Violation    `json:"xv,omitempty"`
 }
 
 // ---------------------------------------------------------------- worker
@@ -243,13 +243,13 @@ func WorkerMain() {
 // ---------------------------------------------------------------- coordinator
 
 type Config struct {
-	Scenario  string
-	Depth     int
-	MaxStates int
-	Workers   int
-	MapMode   int
-	Budget    time.Duration // wall clock budget; expiry => exhaustive:false, never a failure
-	ExtraDepth int          // run def.Extra on every state up to this depth (-1: never)
+	Scenario    string
+	Depth       int
+	MaxStates   int
+	Workers     int
+	MapMode     int
+	Budget      time.Duration // wall clock budget; expiry => exhaustive:false, never a failure
+	ExtraDepth  int           // run def.Extra on every state up to this depth (-1: never)
 	StopAtFirst bool
 }
 
@@ -262,25 +262,25 @@ type Found struct {
 }
 
 type Report struct {
-	Scenario    string         `json:"scenario"`
-	MapMode     int            `json:"mapMode"`
-	Depth       int            `json:"depth"`
-	DepthDone   int            `json:"depthCompleted"`
-	States      int            `json:"states"`
-	Transitions int            `json:"transitions"`
-	Steps       int            `json:"steps"`
-	PerLevel    []int          `json:"statesPerLevel"`
-	Exhaustive  bool           `json:"exhaustive"`
-	CapHit      string         `json:"capHit,omitempty"`
-	Counts      map[string]int `json:"ruleEvaluations"`
-	Shapes      int            `json:"distinctOutboundShapes"`
-	Found       []Found        `json:"-"`
-	Harness     []string       `json:"harnessErrors,omitempty"`
-	Samples     []string       `json:"samples"`
-	ReplaysVerified int        `json:"replaysVerified"`
-	ExtraEvals  int            `json:"extraEvaluations,omitempty"`
-	ExtraDistinct int          `json:"extraDistinct,omitempty"`
-	WallS       float64        `json:"wallS"`
+	Scenario        string         `json:"scenario"`
+	MapMode         int            `json:"mapMode"`
+	Depth           int            `json:"depth"`
+	DepthDone       int            `json:"depthCompleted"`
+	States          int            `json:"states"`
+	Transitions     int            `json:"transitions"`
+	Steps           int            `json:"steps"`
+	PerLevel        []int          `json:"statesPerLevel"`
+	Exhaustive      bool           `json:"exhaustive"`
+	CapHit          string         `json:"capHit,omitempty"`
+	Counts          map[string]int `json:"ruleEvaluations"`
+	Shapes          int            `json:"distinctOutboundShapes"`
+	Found           []Found        `json:"-"`
+	Harness         []string       `json:"harnessErrors,omitempty"`
+	Samples         []string       `json:"samples"`
+	ReplaysVerified int            `json:"replaysVerified"`
+	ExtraEvals      int            `json:"extraEvaluations,omitempty"`
+	ExtraDistinct   int            `json:"extraDistinct,omitempty"`
+	WallS           float64        `json:"wallS"`
 }
 
 type workerProc struct {
